@@ -130,7 +130,7 @@ func init() {
 			map[string]int64{"index_comparisons": 500, "replica_comparisons": 100}},
 		{"C04", cfgC04, 3200, 48000, "one case = one seeded history interleaved with random filter chains (length 1-5 over With/Without/Union/WithUnion/WithValue/WithInt/WithUint/WithFloat/WithString on indexes, value columns, bool columns and missing names); Count, the Range sequence and Sum/Avg/Min/Max over a random numeric column are compared with set algebra over the dumped rows and values (float values are dyadic rationals so every summation order is exact); non-trivial = at least 3 committed transactions",
 			map[string]int64{"filter_chains": 500, "aggregates": 300}},
-		{"C07", cfgC07, 1200, 32000, "one case = one seeded history with snapshot->restore cycles into fresh collections of the same schema (same or different capacity); dump(restored) must equal dump(original) (rows, offsets, values of all kinds, indexes, sorted order, key lookups, counts) and the history then continues on the restored collection under the value/live/key oracles; non-trivial = at least 3 committed transactions",
+		{"C07", cfgC07, 1200, 32000, "one case = one seeded history with snapshot->restore cycles into fresh collections of the same schema (same or different capacity); dump(restored) must equal dump(original) (rows, offsets, values of all kinds, indexes, sorted order, key lookups, counts) and the history then continues on the restored collection under the value/live/key oracles; second phase: a three-block collection of ten column kinds in which one cell holds a filler string sized so that the uncompressed state is exactly 1 MiB + t bytes, for every t up to the size of everything that is not filler - the s2 reader hands out short reads at its 1 MiB block boundary, which thereby falls on every byte of every header and field once; non-trivial = at least 3 committed transactions",
 			map[string]int64{"restores": 60, "restored_rows": 1000}},
 		{"C11", cfgC11, 1600, 40000, "one case = one seeded insert/delete-heavy history over fragmented fill patterns (dense fill then sparse survivors around word and block boundaries); every offset returned by an insert is checked against the model's live set and the transaction's own reservations, after every step Range/Count/Txn.Count must equal the live set and every cell of a new row must be what its insert stored (anything else is stale data); non-trivial = at least 3 committed transactions",
 			map[string]int64{"txn_committed": 500}},
@@ -183,6 +183,10 @@ func init() {
 			mp.add(countPlan, func(w *W, idx int) {
 				withWatchdog(w, idx, fmt.Sprintf("E3:count:round%d", idx), 5*time.Minute, func() { countRound(w, idx) })
 			})
+		}
+		if p.id == "C07" {
+			// states larger than one s2 block: the block boundary swept over every byte that is not filler
+			mp.add(func(string) Plan { return Plan{Cases: 8, Workers: 8, MaxProcs: 2, Timeout: 30 * time.Minute} }, func(w *W, idx int) { s2SweepCase(w, idx, 8) })
 		}
 		if p.id == "C19" {
 			mp.add(racePlan(4, 40), func(w *W, idx int) {
